@@ -9,7 +9,5 @@ export CARGO_NET_OFFLINE=true
 python3 tools/mkvendor.py /verif/vendor || exit 1
 ( cd harness && cargo build --release 2>&1 | tail -3 ) || exit 1
 test -x harness/target/release/aquaverif || { echo "harness build failed"; exit 1; }
-if [ -d fuzz/fuzz ]; then
-  ( cd fuzz && cargo +nightly fuzz build -O 2>&1 | tail -3 ) || echo "fuzz build failed (thorough fuzz campaigns will report inconclusive)"
-fi
+# the libFuzzer targets (harness/fuzz) are built on demand by the thorough tier (tools/fuzz_tier.sh)
 echo "setup done"
